@@ -80,6 +80,21 @@ pub fn gen_pure(args: &Args) {
         g.cfg.max_stmts = 8;
         texts.push(to_text(&g.program(), i % 2 == 0));
     }
+    // programs that would notice state left behind by an earlier evaluation: reads of not-yet-assigned
+    // variables, many globals, heap values, output, errors in the middle of a call
+    for t in [
+        "stel x = x; x",
+        "stel f = (functie() { f })(); type(f)",
+        "stel a = a; stel b = b; stel c = c; [a, b, c]",
+        "stel a = 1; stel b = 2; stel c = 3; stel d = 4; stel e = 5; stel f = 6; stel g = [a, b, c, d, e, f]; print(g); g",
+        "functie diep(n) { als n == 0 { antwoord 1 / 0 } diep(n - 1) } diep(7)",
+        "stel s = \"abc\"; s[0] = \"x\"; print(s); s",
+        "stel t = 0; zolang t < 5 { t += 1; als t == 3 { [1][t] } }; t",
+        "print(\"een\"); stel q = q; print(q); q",
+        "functie f(a, b) { stel c = c; [a, b, c] } f(1, 2)",
+    ] {
+        texts.push(t.to_string());
+    }
     let mut rng = StdRng::seed_from_u64(seed ^ 0xfeed);
     match ctx.as_str() {
         "baseline" => {
